@@ -646,7 +646,11 @@ def c14_matchers():
     def empty_braces_off(rec, d):
         p = parts(d)
         return bool(p) and p[1] in ("seq-empty", "map-empty") and p[2].startswith("m") and p[2][1:].isdigit() and int(p[2][1:]) & 4 != 0
-    return {"C14-block-scalar-anchor-leaks": block_scalar, "C14-variant-payload-inside-flow": variant_in_flow, "C14-empty-as-braces-off": empty_braces_off}
+    def weak_to_binary(rec, d):
+        p = parts(d)
+        r = d.get("rec") or {}
+        return bool(p) and p[0] == "seq-enum" and p[1] == "bytes" and "binary" in (r.get("err") or "")
+    return {"C14-weak-alias-to-non-utf8-binary": weak_to_binary, "C14-block-scalar-anchor-leaks": block_scalar, "C14-variant-payload-inside-flow": variant_in_flow, "C14-empty-as-braces-off": empty_braces_off}
 
 
 def check_C14(ctx):
